@@ -33,6 +33,25 @@ impl<T: Similarity> Similarity for ByRef<'_, T> {
     }
 }
 
+thread_local! {
+    /// the table the long-lived group similarities read (they live as long as the process, the table changes per case)
+    static CURRENT_TABLE: std::cell::RefCell<HashMap<(u32, u32), f32>> = std::cell::RefCell::new(HashMap::new());
+    /// one GroupSimilarity per combiner that is used for EVERY case of the run: a score never depends on what the
+    /// same object was asked before (sizes shrink and grow between cases)
+    static LONG_LIVED_GS: [GroupSimilarity<TlsSim, StandardCombiner>; 3] = [
+        GroupSimilarity::new(StandardCombiner::FunSimAvg, TlsSim),
+        GroupSimilarity::new(StandardCombiner::FunSimMax, TlsSim),
+        GroupSimilarity::new(StandardCombiner::Bma, TlsSim),
+    ];
+}
+struct TlsSim;
+impl Similarity for TlsSim {
+    fn calculate(&self, a: &HpoTerm, b: &HpoTerm) -> f32 {
+        use hpo::annotations::AnnotationId;
+        CURRENT_TABLE.with(|t| *t.borrow().get(&(a.id().as_u32(), b.id().as_u32())).unwrap_or(&-1000.0))
+    }
+}
+
 fn flat_ontology(ids: &[u32]) -> Ontology {
     let mut b = Builder::new();
     for id in ids {
@@ -87,6 +106,13 @@ fn check_matrix(st: &mut Stats, prop: &str, line: &Value, variant: u32) -> Vec<S
     let a = set_of(&ont, &row_ids);
     let b = set_of(&ont, &col_ids);
     let flat: Vec<f32> = m.iter().flatten().copied().collect();
+    CURRENT_TABLE.with(|t| *t.borrow_mut() = table.clone());
+    // the same set, built through From<Vec<u32>> from a list that names every id twice (not adjacent): still that set
+    let a_dup = {
+        let mut v: Vec<u32> = row_ids.iter().rev().copied().collect();
+        v.extend(row_ids.iter().copied());
+        HpoSet::new(&ont, HpoGroup::from(v))
+    };
     // growth (EXTRA): the Matrix view itself - rows() / cols() are the rows / columns of the spec's M, dim / len / is_empty
     {
         let mx = Matrix::new(r, c, &flat);
@@ -116,6 +142,18 @@ fn check_matrix(st: &mut Stats, prop: &str, line: &Value, variant: u32) -> Vec<S
             Ok(got) if close(got, want) => {}
             Ok(got) => d.push(format!("GroupSimilarity::calculate {name} on {r}x{c} matrix {:?} = {got}, expected {want}", m)),
             Err(e) => d.push(format!("GroupSimilarity::calculate {name} panicked: {e}")),
+        }
+        // a GroupSimilarity object that has served every earlier case of this process
+        let idx = COMBINERS.iter().position(|(n, _)| *n == name).unwrap();
+        match catch(|| LONG_LIVED_GS.with(|g| g[idx].calculate(&a, &b))) {
+            Ok(got) if close(got, want) => {}
+            Ok(got) => d.push(format!("a long-lived GroupSimilarity ({name}) that was used for earlier comparisons gives {got} on {r}x{c} matrix {:?}, expected {want}", m)),
+            Err(e) => d.push(format!("long-lived GroupSimilarity {name} panicked: {e}")),
+        }
+        match catch(|| a_dup.similarity(&b, ByRef(&sim), comb)) {
+            Ok(got) if close(got, want) => {}
+            Ok(got) => d.push(format!("HpoSet::similarity {name} with A built by HpoGroup::from(vec naming every id twice) = {got}, expected {want} ({r}x{c} matrix {:?})", m)),
+            Err(e) => d.push(format!("HpoSet::similarity {name} (A from a Vec with repeated ids) panicked: {e}")),
         }
         // the combiner on a Matrix directly (row-major data)
         match catch(|| comb.calculate(&Matrix::new(r, c, &flat))) {
